@@ -458,6 +458,12 @@ class FLAE:
             [ Hz[0],    0.0, -Hz[2], Hz[1]],
             [ 0.0,    Hz[0],  Hz[1], Hz[2]]])
 
+    def _eig_solution(self, W: np.ndarray) -> np.ndarray:
+        """Optimal quaternion as the eigenvector of W associated to its largest eigenvalue."""
+        V, D = np.linalg.eigh(W)    # W is symmetric by construction: real eigen-pairs
+        q = D[:, np.argmax(V)]
+        return q / np.linalg.norm(q)
+
     def estimate(self, acc: np.ndarray, mag: np.ndarray, method: str = 'symbolic') -> np.ndarray:
         """
         Estimate a quaternion with the given measurements and weights.
@@ -498,9 +504,7 @@ class FLAE:
         H = self.a * Db.T @ self.ref                                        # (eq. 42)
         W = self._P1Hx(H[0]) + self._P2Hy(H[1]) + self._P3Hz(H[2])          # (eq. 44)
         if method.lower() == 'eig':
-            V, D = np.linalg.eigh(W)    # W is symmetric by construction: real eigen-pairs
-            q = D[:, np.argmax(V)]
-            return q / np.linalg.norm(q)
+            return self._eig_solution(W)
         # Polynomial parameters                             (eq. 49)
         t1 = -2*np.trace(H@H.T)
         t2 = -8*np.linalg.det(H.T)
@@ -528,6 +532,9 @@ class FLAE:
             L[3] = -(T2 - np.sqrt(abs(-T2**2 - 12*t1 + 12*np.sqrt(6)*t2/T2)))
             L *= 1.0/(2.0*np.sqrt(6))
             lam = L[(np.abs(L-1.0)).argmin()]               # Eigenvalue closest to 1
+        if not np.isfinite(lam):
+            # Degenerate characteristic polynomial (repeated root: 0/0 in the closed form): use the eigen-decomposition
+            return self._eig_solution(W)
         N = W - lam*np.identity(4)                          # (eq. 54)
         try:
             # Return identity quaternion if N is singular matrix
@@ -535,6 +542,10 @@ class FLAE:
         except np.linalg.LinAlgError:
             return np.array([1., 0., 0., 0.])
         # Solve for N and get fundamental solution
-        r = np.linalg.solve(N[1:, :-1], N[1:, -1])          # (eq. 55)
+        try:
+            r = np.linalg.solve(N[1:, :-1], N[1:, -1])      # (eq. 55)
+        except np.linalg.LinAlgError:
+            # The optimal quaternion has a null last element: it cannot be scaled to (r, -1). Use the eigen-decomposition
+            return self._eig_solution(W)
         q = np.array([*r, -1])                              # (eq. 58)
         return q / np.linalg.norm(q)
